@@ -400,3 +400,14 @@ package consensus
 //@   requires msg != nil && dyntype(msg.Sum) == typeid(*kcons.WALMessage_EndHeight) ==> unbox(msg.Sum, *kcons.WALMessage_EndHeight) != nil && unbox(msg.Sum, *kcons.WALMessage_EndHeight).EndHeight != nil
 //@   modifies *
 //@   ensures [nilMessageRefused] msg == nil ==> err != nil
+
+// ---------------------------------------------------------------- C01/C03: a restarting validator replays its WAL
+// Switching from block sync to consensus turns WAL catch-up OFF only when blocks were synced (skipWAL);
+// a node restarting at the tip keeps it on, so that it recovers its own lock and votes of the height.
+//@ func (conR *ConsensusManager) SwitchToConsensus(state cstate.LatestBlockState, skipWAL bool)
+//@   for C01 C03
+//@   requires conR != nil && conR.conS != nil
+//@   modifies *
+//@   opt assumecallreqs
+//@   opt noinline
+//@   atstore ConsensusState.doWALCatchup requires [catchupOnlyTurnedOffAfterASync] skipWAL && !new
